@@ -330,6 +330,51 @@ def _direct_bisect(fn, rid, key, meth, file) -> Optional[List[R.Inst]]:
     return None
 
 
+def _vector_bisect(fn, rid, key, meth, file) -> Optional[List[R.Inst]]:
+    """`A = np.searchsorted(KEYS, QUERIES, side=..) - 1` for all queries at once, and the result `np.array([f(q, X[i], ..) for q, i in
+    zip(QUERIES, A)])`: one result per query in query order by construction; the side decides which segment a query exactly on a
+    change falls into, as in the per-query form"""
+    qparam = [a.arg for a in fn.node.args.args if a.arg != "self"]
+    if not qparam:
+        return None
+    q = qparam[0]
+    cand = None
+    for n in walk_no_nested(fn.node):
+        if isinstance(n, ast.Assign) and len(n.targets) == 1 and isinstance(n.targets[0], ast.Name) and isinstance(n.value, ast.BinOp) and \
+                isinstance(n.value.op, ast.Sub) and isinstance(n.value.right, ast.Constant) and n.value.right.value == 1 and \
+                isinstance(n.value.left, ast.Call) and call_name(n.value.left) == "searchsorted" and len(n.value.left.args) >= 2 and \
+                unparse(n.value.left.args[1]) == q:
+            cand = (n.targets[0].id, n.value.left, n)
+    if cand is None:
+        return None
+    a, b, node = cand
+    rets = [n for n in walk_no_nested(fn.node) if isinstance(n, ast.Return) and n.value is not None]
+    if len(rets) != 1:
+        return None
+    rv = rets[0].value
+    while isinstance(rv, ast.Call) and call_name(rv) in ("array", "asarray", "list") and rv.args:
+        rv = rv.args[0]
+    out = []
+    ok_order = isinstance(rv, (ast.ListComp, ast.GeneratorExp)) and len(rv.generators) == 1 and not rv.generators[0].ifs and \
+        isinstance(rv.generators[0].iter, ast.Call) and call_name(rv.generators[0].iter) == "zip" and \
+        sorted(unparse(x) for x in rv.generators[0].iter.args) == sorted([q, a])
+    if ok_order:
+        out.append(R.ok(rid, key, file, rets[0].lineno, idiom="one result per query in query order (all queries bisected at once, no sorting)"))
+    else:
+        out.append(R.undec(rid, key, file, rets[0].lineno, f"vectorised bisection, but the result '{unparse(rets[0].value)[:60]}' is not built per (query, index) pair in query order"))
+    side = next((k.value for k in b.keywords if k.arg == "side"), None)
+    right = isinstance(side, ast.Constant) and side.value == "right"
+    k2 = f"TimingMap.{meth}:sweep"
+    if right:
+        out.append(R.ok(rid, k2, file, b.lineno, idiom="active change = searchsorted(change positions, queries, right) - 1"))
+    else:
+        out.append(R.viol(rid, k2, file, b.lineno,
+                          "the active tempo change is selected with searchsorted(.., side='left') - 1: a query that lies exactly ON a tempo change "
+                          "is converted with the PREVIOUS segment's tempo (a query exactly on a change belongs to that change: side='right')",
+                          construct=f"{meth}: searchsorted left - 1 selects the previous segment at equality"))
+    return out
+
+
 def rule_r1(ctx) -> List[R.Inst]:
     M = ctx.M
     rid = "C10.R1"
@@ -439,7 +484,7 @@ def rule_r1(ctx) -> List[R.Inst]:
         main = [r for r in rets if isinstance(r.value, ast.Subscript)]
         if acc is None or len(main) != 1:
             # second structure: no sorting at all — one result per query, in query order, the active change found by bisection
-            direct = _direct_bisect(fn, rid, key, meth, file) or _index_scatter(fn, rid, key, meth, file)
+            direct = _direct_bisect(fn, rid, key, meth, file) or _index_scatter(fn, rid, key, meth, file) or _vector_bisect(fn, rid, key, meth, file)
             if direct is not None:
                 insts.extend(direct)
                 continue
